@@ -132,6 +132,7 @@ func hb(b bool) string {
 }
 
 type Sim struct {
+	db     *muxdb.MuxDB // owned in-memory database (native level); nil for views of a chain
 	Addr   thor.Address // the staker contract account
 	Cfg    Cfg
 	St     *state.State
@@ -155,7 +156,7 @@ func NewSim(g Cfg) *Sim {
 	st := state.New(db, trie.Root{})
 	st.SetCode(stakerAddr, []byte{0x60}) // the account exists, as after genesis
 	p := params.New(paramsAddr, st)
-	s := &Sim{Addr: stakerAddr, Cfg: g, St: st, Params: p, FC: &thor.ForkConfig{HAYABUSA: g.Hayabusa}}
+	s := &Sim{db: db, Addr: stakerAddr, Cfg: g, St: st, Params: p, FC: &thor.ForkConfig{HAYABUSA: g.Hayabusa}}
 	s.Stk = staker.New(stakerAddr, st, p, nil)
 	if g.MBP != 0 {
 		p.Set(thor.KeyMaxBlockProposers, new(big.Int).SetUint64(g.MBP))
@@ -164,6 +165,14 @@ func NewSim(g Cfg) *Sim {
 		st.SetBalance(stakerAddr, new(big.Int).SetUint64(g.Donation))
 	}
 	return s
+}
+
+// Close releases the in-memory database of a native-level simulation.
+func (s *Sim) Close() {
+	if s.db != nil {
+		s.db.Close()
+		s.db = nil
+	}
 }
 
 func (s *Sim) slot0() *big.Int {
